@@ -50,7 +50,17 @@ type verifQEnv struct {
 
 var verifJobNames = []string{"j0", "j1", "j2", "j3"}
 
+type verifQOpts struct {
+	n, interference int
+	fifoOnly        bool // every Job is queued and due, policy is Enqueue or none, writes never fail
+}
+
 func verifSetupQueue(n int, interference int) (*verifQEnv, *Context) {
+	return verifSetupQueueOpts(verifQOpts{n: n, interference: interference})
+}
+
+func verifSetupQueueOpts(o verifQOpts) (*verifQEnv, *Context) {
+	n, interference := o.n, o.interference
 	env := &verifQEnv{api: &fakes.API{}, queue: &fakes.Queue{}, iqueue: &fakes.Queue{}}
 	env.now = vz.InstantNear("now")
 	now2 := vz.InstantNear("now2") // a later reading for time.Until
@@ -85,7 +95,7 @@ func verifSetupQueue(n int, interference int) (*verifQEnv, *Context) {
 		q.job.Labels = map[string]string{jobconfig.LabelKeyJobConfigUID: "uid1"}
 		q.created = vz.InstantSec(verifJobNames[i] + ".created")
 		q.job.CreationTimestamp = metav1.NewTime(q.created)
-		q.queued = vz.Bool(verifJobNames[i] + ".queued")
+		q.queued = o.fifoOnly || vz.Bool(verifJobNames[i]+".queued")
 		if !q.queued {
 			// started-and-running or finished: must be ignored by the pass
 			if vz.Bool(verifJobNames[i] + ".started") {
@@ -96,7 +106,13 @@ func verifSetupQueue(n int, interference int) (*verifQEnv, *Context) {
 				q.job.Status.Phase = execution.JobAdmissionError
 			}
 		}
-		switch vz.Choice(verifJobNames[i]+".policy", 4) {
+		pc := 0
+		if o.fifoOnly {
+			pc = 3 * vz.Choice(verifJobNames[i]+".enqueue", 2)
+		} else {
+			pc = vz.Choice(verifJobNames[i]+".policy", 4)
+		}
+		switch pc {
 		case 0:
 		case 1:
 			q.policy = execution.ConcurrencyPolicyAllow
@@ -107,7 +123,7 @@ func verifSetupQueue(n int, interference int) (*verifQEnv, *Context) {
 		}
 		if q.policy != "" {
 			q.job.Spec.StartPolicy = &execution.StartPolicySpec{ConcurrencyPolicy: q.policy}
-			if vz.Bool(verifJobNames[i] + ".hasStartAfter") {
+			if !o.fifoOnly && vz.Bool(verifJobNames[i]+".hasStartAfter") {
 				q.hasSA = true
 				q.startAfter = vz.InstantNear(verifJobNames[i] + ".startAfter")
 				t := metav1.NewTime(q.startAfter)
@@ -119,7 +135,7 @@ func verifSetupQueue(n int, interference int) (*verifQEnv, *Context) {
 	}
 	// API: each write may fail without effect
 	env.api.Decide = func(c *fakes.APICall) error {
-		if vz.Bool("apiFails") {
+		if !o.fifoOnly && vz.Bool("apiFails") {
 			env.failed++
 			return fakes.ErrorOfKind([]int{0, 1, 2, 4}[vz.Choice("errKind", 4)], c.Name)
 		}
@@ -187,6 +203,20 @@ func VerifH_C05_L3_admission() {
 		interference = 2
 	}
 	env, ctx := verifSetupQueue(n, interference)
+	env.verifRunAdmission(ctx)
+}
+
+// VerifH_C06_fifo3: three queued, due Jobs (Enqueue or no policy) and up to two
+// finish events arriving while the pass runs: Enqueue Jobs start in creation order.
+func VerifH_C06_fifo3() {
+	env, ctx := verifSetupQueueOpts(verifQOpts{n: 3, interference: 2, fifoOnly: true})
+	env.verifRunAdmission(ctx)
+	if env.finishes == 2 {
+		vz.Cover("two-concurrent-finishes")
+	}
+}
+
+func (env *verifQEnv) verifRunAdmission(ctx *Context) {
 	r := NewPerConfigReconciler(ctx, nil, NewJobControl(&fakes.ExecClient{A: env.api}, ctx.recorder))
 	err := r.SyncOne(context.Background(), "ns", "jc", 0)
 	vz.OnAtomic(nil, 0)
